@@ -460,12 +460,30 @@ Definition c07_iter (g : g7) (st : dstate) (it : iter) (post : dstate) (obs : li
                                     else []) (sends_of obs)) in
   (* a service that is registered again starts over *)
   let rereg := flat_map (svc_names (map snd (d_regs post))) (registered_in (it_calls it)) in
-  let g_ann0 := filter (fun kv => negb (gone (fst (fst kv)))
+  (* an interface that lost an address (a family was disabled): what was announced there may have
+     nothing left to announce; the pairs on that interface are not followed further *)
+  let shrunk (k : N) : bool :=
+    match find_intf st k, find_intf post k with
+    | Some a, Some b => Nat.ltb (length (if_addrs b)) (length (if_addrs a))
+    | _, _ => false
+    end in
+  let g_ann0 := filter (fun kv => negb (gone (fst (fst kv))) && negb (shrunk (fst (fst kv)))
                                   && negb (existsb (fun n => labels_beq (snd (fst kv)) (lname n)) rereg)) (g_ann g) in
+  (* an announcement that a pending RegisterResend makes IS a second announcement (its first may have
+     gone out on an earlier incarnation of the interface): it does not open a new pair *)
+  let resent : list pkey :=
+    flat_map (fun e => match snd e with
+                       | RegisterResend full i =>
+                         if fst e <=? now
+                         then map (fun n => (i, lname n)) (full :: map (fun rg => resolve_name rg full)
+                                                                      [get_reg st i; get_reg post i])
+                         else []
+                       | _ => [] end) (d_retrans st) in
   let g_ann' :=
     fold_left (fun acc k => match kget pkey_eqb k acc with
                             | Some (t0, c, a) => kset pkey_eqb k (t0, c + 1, a) acc
-                            | None => kset pkey_eqb k (now, 1, adding) acc end) anns g_ann0 in
+                            | None => kset pkey_eqb k (now, if existsb (pkey_eqb k) resent then 2 else 1, adding) acc
+                            end) anns g_ann0 in
   let unreg := g_unreg g || existsb (fun c => match c with CUnregister _ _ | CShutdown => true | _ => false end)
                                     (it_calls it) in
   let v_second :=
